@@ -99,7 +99,7 @@ def run(tier):
     chk.cov['evaluations'] = len(lines); chk.cov['traces_validated_against_impl'] = len(lines)
     chk.cov['distinct_nontrivial'] = len(set(l for l, m in zip(lines, model) if '|T|' in m))
     chk.cov['rule'] = ('flow queries "offset bytes": every direct relative branch family (jcc rel8/rel32, jmp, call, loop*, jecxz) x 9 prefix sets x boundary displacements x 17 offsets incl. 2^32-16..2^32-1; '
-                       'all 256 software-interrupt vectors; returns, far and indirect forms, hlt, ud2, sys* under 10 prefix sets; a sample of the whole opcode control space (flags only). '
+                       'all 256 software-interrupt vectors; returns, far and indirect forms, hlt, ud2, sys* under 10 prefix sets; a sample of the whole opcode control space (flags only); the direct relative branch families decoded as 16-bit code (attrib opmode = u16) x boundary displacements x 3 offsets, against the architectural length / fall-through / destination. '
                        'Non-trivial = query on a block-ending instruction')
     chk.cov['samples'] = [dict(query=l, model=m, impl=i) for l, m, i in list(zip(lines, model, impl))[::max(1, len(lines) // 6)][:6]]
     kf = {k['key']: k for k in chk.known_findings()}
@@ -114,6 +114,33 @@ def run(tier):
         if key in kf: chk.report_known(key, kf[key]['what'] + ' (%d queries in this run)' % len(items)); continue
         l, i, why = items[0]
         chk.violation('flow metadata of "%s" is %s: %s; %d queries of class %s' % (l, i, why, len(items), cl), dict(case=l, impl=i, why=why, count=len(items), key=key))
+    # 16-bit code segment (attrib {'opmode': u16}): direct relative branches with rel16 / rel8 displacements at boundary values; the
+    # architectural answer is computed here: length, fall-through = offset + length, destination = offset + length + sext(disp) mod 2^16
+    def sx(v, n): return v - (1 << n) if v >> (n - 1) else v
+    q16 = []
+    for off in (16, 0x7ff0, 0xfff0):
+        for dv in (0x0000, 0x0020, 0x7fff, 0x8000, 0xfffc, 0xffff):
+            lo = '%02x%02x' % (dv & 255, dv >> 8)
+            for h, kind in [('e8' + lo, 'call'), ('e9' + lo, 'jmp')] + [('0f%02x' % o + lo, 'jcc') for o in range(0x80, 0x90)]:
+                q16.append((off, h, len(h) // 2, sx(dv, 16), kind))
+        for dv in (0x00, 0x20, 0x7f, 0x80, 0xfe, 0xff):
+            for h, kind in [('eb%02x' % dv, 'jmp')] + [('%02x%02x' % (o, dv), 'jcc') for o in list(range(0x70, 0x80)) + [0xe0, 0xe1, 0xe2, 0xe3]]:
+                q16.append((off, h, 2, sx(dv, 8), kind))
+    out16 = run_impl('impl_x86dis.py', ['f16 %d %s9090909090' % (off, h) for off, h, L, dv, kind in q16])
+    bad16 = {}
+    for (off, h, L, dv, kind), o in zip(q16, out16):
+        f = o.split('|'); exp = (off + L + dv) & 0xffff
+        why = None
+        if len(f) != 7: why = 'no flow answer (%s)' % o
+        elif int(f[6]) != L or int(f[4]) != off + L: why = 'length %s, fall-through %s; architecturally %d and %d' % (f[6], f[4], L, off + L)
+        elif f[5] != str(exp): why = 'destination %s; architecturally %d' % (f[5], exp)
+        elif f[1] != 'T' or f[3] != 'T' or (f[2] == 'T') != (kind != 'jmp'): why = 'flags bkf/spf/dtf = %s/%s/%s' % (f[1], f[2], f[3])      # spf of a jmp: False or unset
+        if why: bad16.setdefault('flow16:%s:%s' % (kind, 'rel8' if L == 2 else 'rel16'), []).append(('f16 %d %s' % (off, h), o, why))
+    chk.cov['queries_16bit_mode'] = len(q16); chk.cov['evaluations'] += len(q16)
+    for key, items in sorted(bad16.items()):
+        if key in kf: chk.report_known(key, kf[key]['what'] + ' (%d queries in this run)' % len(items)); continue
+        l, i, why = items[0]
+        chk.violation('flow metadata of "%s" decoded as 16-bit code is %s: %s; %d queries of class %s' % (l, i, why, len(items), key), dict(case=l, impl=i, why=why, count=len(items), key=key))
     mism = [(l, m, i) for l, m, i in zip(lines, model, impl) if m != i and not any(l == x[0] for v in bad.values() for x in v)]
     if mism and not chk.violations:
         l, m, i = sorted(mism, key=lambda x: (len(x[0]), x[0]))[0]
